@@ -67,17 +67,33 @@ def draw_values(tensors, seed: int, profile: str):
     return vals
 
 
+def _storage(compiler, t):
+    """(tensor node, fold index) registered for the symbolic tensor t; a registry entry that points to a
+    tensor without storage (never initialised, or replaced by a later compilation) is a violation of the
+    'remains addressable' part of C02 / C10, not a harness problem."""
+    from vlib.runner import Violation
+
+    try:
+        node, idx = compiler.state.retrieve_compiled_parameter(t)
+    except Exception as e:  # pylint: disable=broad-except
+        raise Violation("addressability", "state-map:not-registered", f"{type(e).__name__}: {e}") from e
+    if getattr(node, "_ptensor", None) is None:
+        raise Violation("addressability", "state-map:uninitialised-tensor",
+                        "the compiled tensor registered for a symbolic tensor has no storage")
+    return node, idx
+
+
 def write_values(compiler: TorchCompiler, vals):
     with torch.no_grad():
         for t, v in vals.items():
-            node, idx = compiler.state.retrieve_compiled_parameter(t)
+            node, idx = _storage(compiler, t)
             node._ptensor.data[idx].copy_(torch.from_numpy(np.ascontiguousarray(v)))
 
 
 def read_values(compiler: TorchCompiler, tensors):
     vals = {}
     for t in tensors:
-        node, idx = compiler.state.retrieve_compiled_parameter(t)
+        node, idx = _storage(compiler, t)
         vals[t] = node._ptensor.data[idx].detach().cpu().numpy().copy()
     return vals
 
